@@ -3,6 +3,18 @@ use crate::canon::*;
 use crate::net::*;
 use gamedig::games::{battalion1944, eco, ffow, mindustry, savage2, theship};
 
+crate::impl_view_dump!(mindustry::types::ServerData, "games/mindustry/types.rs", "ServerData", "", "");
+crate::impl_view_dump!(savage2::Response, "games/savage2/types.rs", "Response", "", "");
+crate::impl_view_dump!(ffow::Response, "games/ffow/types.rs", "Response", "", "");
+crate::impl_view_dump!(
+    theship::Response,
+    "games/theship/types.rs",
+    "Response",
+    "games/theship/types.rs",
+    "TheShipPlayer"
+);
+crate::impl_view_dump!(eco::Response, "games/eco/types.rs", "Response", "games/eco/types.rs", "Player");
+
 pub fn entries() -> Vec<(&'static str, crate::EntryFn)> {
     vec![
         ("mindustry", entry_mindustry),
@@ -344,5 +356,10 @@ fn entry_eco(args: &[&str]) -> String {
                 .map_err(|e| gamedig::GDErrorKind::ProtocolFormat.context(e))
         }
     };
-    format!("{} ;;  ;; A0/0", show_res(&res, show_eco))
+    let view = res
+        .as_ref()
+        .ok()
+        .and_then(crate::views::ViewDump::view_dump)
+        .map_or(String::new(), |v| format!(" ;; V{}", hex(v.as_bytes())));
+    format!("{} ;;  ;; A0/0{}", show_res(&res, show_eco), view)
 }
